@@ -169,6 +169,13 @@ func (c *SCIONClient) measureClockOffsetSCION(ctx context.Context, mtrcs *scionC
 
 	localPort := conn.LocalAddr().(*net.UDPAddr).Port
 
+	// remoteAddr.Host points to an address object of the caller, which also
+	// hands it to the other clients of a round and to this client's own
+	// key-exchange configuration: the server and port named in a key exchange
+	// go into a copy
+	remoteHost := *remoteAddr.Host
+	remoteAddr.Host = &remoteHost
+
 	var ntskeData ntske.Data
 	if c.Auth.NTSEnabled {
 		ntskeData, err = c.Auth.NTSKEFetcher.FetchData(ctx)
